@@ -356,7 +356,7 @@ fn malformed_case(rng: &mut Rng, rep: &mut Report, case: u64, bases: &Bases) {
         return;
     }
     let kind = graphgen::MALFORMED_KINDS[which];
-    let Some(m) = graphgen::malform(&g, kind, rng) else { rep.count(&format!("malformed.{kind}.skipped_graph_too_small")); return };
+    let Some(m) = graphgen::malform(&g, kind, rng) else { rep.count(&format!("malformed.{kind}.skipped_graph_not_suitable")); return };
     let class = kind.split('.').next().unwrap_or(kind);
     let (demand_keys, directory) = match &m.demand { Demand::Directory => (known.clone(), true), Demand::Versions(k) => (k.clone(), false) };
     // listing orders: two that are the reverse of each other; for two-root directories six more on purpose: both root files
@@ -482,7 +482,7 @@ fn main() {
     rep.max_samples = 3;
     let copies = ctx.tier.pick(4, 6);
     // the cheap workload first: every malformed kind is exercised even when a loaded machine later runs out of budget
-    let n = ctx.tier.pick(1_600, 32_000);
+    let n = ctx.tier.pick(2_100, 32_000);
     run_cases(&ctx, &replay, &mut rep, "malformed", n, |rng, rep, i| malformed_case(rng, rep, i, &bases));
     let n = ctx.tier.pick(2_000, 60_000);
     run_cases(&ctx, &replay, &mut rep, "graphs", n, |rng, rep, i| graph_case(rng, rep, i, &bases, copies));
